@@ -48,7 +48,7 @@ class Scenario:
     grid: float | None = None        # extra no-op instants where `time` stops
     coincide = False                 # allow env actions right after `time` while handles are ready
     dev_when_ready = False           # allow env actions at every step boundary (S1 harnesses)
-    max_steps = 200_000
+    max_steps = 20_000
     instant_budget = 20_000
     kinds: list[Kind] | None = None
 
@@ -415,6 +415,8 @@ class Env:
             if steps > sc.max_steps:
                 self.end_reason = 'step-budget'
                 return
+            if steps % 64 == 0:
+                dog.rearm()   # the watchdog bounds a single step (a spin), not the whole execution
             acts = self.enabled()
             if not acts:
                 self.end_reason = 'quiescent' if not self.world.pending else 'deadlock'
